@@ -68,6 +68,9 @@ func (m *Method) HasResults() bool {
 
 func (m *Method) ensureParamNames() {
 	paramDeduper := make(map[string]int, len(m.Input)+len(m.Output))
+	// the user's own names (of inputs and outputs) first, then the generated ones.
+	m.Input.keepNames(paramDeduper)
+	m.Output.keepNames(paramDeduper)
 	m.Input.ensureNames(paramDeduper, false)
 	m.Output.ensureNames(paramDeduper, true)
 }
